@@ -5,6 +5,7 @@ import io
 import json
 import threading
 
+import sys
 import common, enc, gen, sweep, impl
 import segno
 from segno import consts, encoder, writers, utils
@@ -24,6 +25,20 @@ def fresh_result(case):
     r = subprocess.run([sys.executable, '-c', code], input=json.dumps(enc.describe(case)), capture_output=True, text=True,
                        env=dict(os.environ, PYTHONPATH=common.REPO, PYTHONHASHSEED='0'), timeout=120)
     return r.stdout.strip()
+
+
+def fresh_history(cases):
+    """The answers of ONE fresh interpreter that makes the calls in the given order."""
+    import subprocess, os
+    code = ('import sys, json; sys.path.insert(0, %r); import enc; '
+            'cs = json.loads(sys.stdin.read()); print(json.dumps([enc.run_impl(enc.undescribe(c))[0] for c in cs]))'
+            % os.path.dirname(os.path.dirname(os.path.abspath(__file__))))
+    r = subprocess.run([sys.executable, '-c', code], input=json.dumps([enc.describe(c) for c in cases]), capture_output=True, text=True,
+                       env=dict(os.environ, PYTHONPATH=common.REPO, PYTHONHASHSEED='0'), timeout=600)
+    try:
+        return json.loads(r.stdout.strip().splitlines()[-1])
+    except Exception:  # noqa: BLE001
+        return None
 
 
 def snapshot_tables():
@@ -63,6 +78,20 @@ def run(ctx):
             for x in parts:
                 fam.append(dict(content=x, **kw))
             fam.append(dict(content=list(parts), **kw))
+    # directed: calls of the same shape (same modes, same length class) that differ in ONE size-relevant aspect - the
+    # encoding of a byte segment with/without ECI header, Hanzi subset bits, SA - at a capacity boundary: anything
+    # memoised per shape makes the second call of such a pair wrong
+    for a, b in ((dict(content='a' * 17, eci=True), dict(content='€€€€€ab', eci=True)),
+                 (dict(content='abc', eci=True), dict(content='é' * 7, eci=True, encoding='utf-8')),
+                 (dict(content='x' * 7, eci=True, encoding='utf-8'), dict(content='x' * 7, eci=True)),
+                 (dict(content='a' * 32, eci=True, error='L'), dict(content='a' * 32, eci=True, error='L', encoding='utf-8')),
+                 (dict(content='a' * 17), dict(content='a' * 17, eci=True, encoding='utf-8')),
+                 (dict(content='点' * 8, mode='hanzi'), dict(content='点' * 8, mode='kanji', encoding='shift_jis')),
+                 (dict(content='1' * 41, micro=False), dict(content='1' * 41, micro=False, error='L')),
+                 (dict(content='A' * 25, version=1), dict(content='A' * 25, version=2))):
+        if enc.representable(a) and enc.representable(b):
+            fam += [a, b, a, b]
+    n_fam = len(fam)
     pool = fam + pool
     n_pool = len(pool)
     model = common.oracle_parallel([enc.request(c) for c in pool], chunk=10)
@@ -132,6 +161,18 @@ def run(ctx):
         if i in first and s != first[i]:
             failures.append({'input': {'case': enc.describe(pool[i]), 'order': 'shuffled'}, 'observed': s[:80], 'expected': first[i][:80]})
         first.setdefault(i, s)
+    # ---- history 2b: the directed families in REVERSE order in one fresh interpreter (a per-shape cache is filled by
+    #      whichever call comes first; the forward order only exposes the second of each pair)
+    rev = list(reversed(range(n_fam)))
+    ans = fresh_history([pool[i] for i in rev])
+    if ans is not None:
+        for i, s in zip(rev, ans):
+            n += 1
+            if i in first and s != first[i]:
+                fr = fresh_result(pool[i])
+                failures.append({'input': {'case': enc.describe(pool[i]), 'order': 'reversed directed families in a fresh interpreter'},
+                                 'observed': ('in-process answer %s' % first[i][:60]) if fr == s else s[:80],
+                                 'expected': 'answer of a fresh interpreter for the same arguments: ' + fr[:80]})
     # ---- history 3: 8 threads
     results = [dict() for _ in range(8)]
     errors = []
@@ -194,5 +235,4 @@ def run(ctx):
 
 
 def replay(rec):
-    print(json.dumps(rec['input'])[:400])
-    return 1
+    return common.replay_by_rerun(sys.modules[__name__], rec)
